@@ -190,6 +190,12 @@ impl Profile {
 						cfg.thresholds.insert(i as u8, *rng.pick(&[0u32, 16, 64, 4096]));
 					}
 				}
+				if *self == Profile::C03 && (v / 12) % 3 == 1 && v % 2 == 1 {
+					// tree layout: a multitree column whose readers are locked and released while
+					// the history runs - dereferences get postponed, and the handle is dropped with
+					// postponed transactions in the queue
+					cfg = DbCfg::new(vec![multitree_col(false, (v / 2) % 2 == 1, true), col(false, false, false, false, comp(rng))]);
+				}
 				if (*self == Profile::C03 && (v / 12) % 3 == 2) || (*self == Profile::C01 && (v / 12) % 4 == 3) {
 					// reindex variant: uniform keys through the identity hash
 					cfg.cols[0] = col(false, true, false, false, CompressionType::NoCompression);
